@@ -308,7 +308,7 @@ func hashCandidate(t *rapid.T, p *refchess.Pos) int {
 		return 0
 	case 1, 2:
 		if len(pseudo) > 0 {
-			return int(pseudo[gen.Draw(t, 0, len(pseudo)-1, "hm")].Enc())
+			return int(eng.Enc(pseudo[gen.Draw(t, 0, len(pseudo)-1, "hm")]))
 		}
 	case 3:
 		if len(pseudo) > 0 { // near miss: altered promotion bits or target
@@ -318,7 +318,7 @@ func hashCandidate(t *rapid.T, p *refchess.Pos) int {
 			} else {
 				m.To = gen.Draw(t, 0, 63, "to")
 			}
-			return int(m.Enc())
+			return int(eng.Enc(m))
 		}
 	}
 	return gen.Draw(t, 0, 1<<15-1, "enc")
